@@ -27,6 +27,7 @@ func gcHistory(c *vh.Ctx, i int) {
 	reg := &registry{images: map[string]*pkggen.Spec{}}
 	env := manifests.PackageEnvironment{Kubernetes: manifests.PackageEnvironmentKubernetes{Version: "1.27.3"}}
 	hide := int64(0)
+	youngDeleted := map[string]bool{}
 	stale := r.Intn(3) == 0
 	e, err := scen.NewEnv(r, driver.Options{
 		Controllers:     []string{driver.CtrlObjectDeployment, driver.CtrlObjectSet},
@@ -36,7 +37,7 @@ func gcHistory(c *vh.Ctx, i int) {
 			pc.SetEnvironment(&env)
 			return map[string]reconcile.Reconciler{driver.CtrlPackage: pc}
 		},
-	}, gcMonitor{})
+	}, gcMonitor{hide: &hide, youngDeleted: youngDeleted})
 	if err != nil {
 		panic(err)
 	}
@@ -128,7 +129,11 @@ func gcHistory(c *vh.Ctx, i int) {
 			for _, sn := range ph.Slices {
 				e.Count("c14_references_checked_at_rest")
 				if st.Peek(scen.PKO("ObjectSlice").GroupKind(), "ns", sn) == nil {
-					e.Report("C14:referenced-slice-missing-at-rest", fmt.Sprintf("%s %s references ObjectSlice %s which does not exist", k.Kind, k.Name, sn))
+					sig := "C14:referenced-slice-missing-at-rest"
+					if youngDeleted[sn] {
+						sig += ":deleted-while-objectset-not-yet-visible-in-cache"
+					}
+					e.Report(sig, fmt.Sprintf("%s %s references ObjectSlice %s which does not exist", k.Kind, k.Name, sn))
 				}
 			}
 		}
@@ -139,7 +144,7 @@ func gcHistory(c *vh.Ctx, i int) {
 	c.Eval()
 	for _, v := range e.Viol {
 		sig := v.Sig
-		if stale {
+		if stale && !strings.HasSuffix(sig, "objectset-not-yet-visible-in-cache") {
 			sig += ":stale-cache"
 		}
 		c.Violation(sig, v.Msg, map[string]any{"index": i, "stream": "c14-gc", "stale": stale, "steps": e.Log, "trace": e.TraceTail(300)})
